@@ -102,7 +102,9 @@ Definition ctor_expected : list string :=
    "m_uncompressedFile . setBufferSize ( m_uncompressedFile . defaultLogContainerSize ( ) )"].
 Definition setdcs_expected : list string :=
   ["m_uncompressedFile . setDefaultLogContainerSize ( defaultLogContainerSize )";
-   "m_uncompressedFile . setBufferSize ( defaultLogContainerSize )"].
+   "if ( ! is_open ( ) ) m_uncompressedFile . setBufferSize ( defaultLogContainerSize )"].
+(* (outside a session the buffer follows the container size; inside one it is never lowered: a worker may be waiting for a
+   chunk of the previous size — UncompressedFile::read raises the buffer by itself for a larger chunk, C15_read_grows_buffer) *)
 
 (* ---- worker 2 (write) asks for exactly one container and drops what it consumed ---- *)
 Definition w2_step_ok (l : list string) : bool :=
